@@ -22,4 +22,6 @@ MUTANTS = [
     M('C20', 'silent mode also drops the implicit debug file (seed C20_2)', 'flipjump/flipjump_cli.py', "            print(f\"{parser_warning} Debugging data will be saved.\")\n        debug_file = ''", "            print(f\"{parser_warning} Debugging data will be saved.\")\n            debug_file = ''", 'C20.REPORT-ONLY'),
     M('C20', 'print_termination also decides the returned value', 'flipjump/flipjump_quickstart.py', "    if print_termination:\n", "    if print_termination:\n        return termination_statistics\n", 'C20.REPORT-ONLY'),
     M('C20', 'EQ silent warning text bound outside the gate', 'flipjump/flipjump_cli.py', "        if not args.silent:\n            parser_warning = 'Parser Warning - breakpoints are used but the debugging flag (-d) is not specified.'\n", "        parser_warning = 'Parser Warning - breakpoints are used but the debugging flag (-d) is not specified.'\n        if not args.silent:\n", None),
+    M('C20', 'temporary debug file only in assemble-only runs (mutation survey)', 'flipjump/flipjump_cli.py', "    debug_file_needed = not args.asm and any((args.breakpoint, args.breakpoint_contains))", "    debug_file_needed = args.asm and any((args.breakpoint, args.breakpoint_contains))", 'C20.DEBUG-FILE'),
+    M('C20', 'EQ breakpoint test spelled with or', 'flipjump/flipjump_cli.py', "    debug_file_needed = not args.asm and any((args.breakpoint, args.breakpoint_contains))", "    debug_file_needed = not args.asm and bool(args.breakpoint or args.breakpoint_contains)", None),
 ]
